@@ -161,6 +161,20 @@ theorem inc_int_path_denotes (x : Int) (r : F64) :
 theorem dec_int_path_denotes (x : Int) (r : F64) :
     specSameValue (opDec (int x) r).toF64 (F64.ofInt (x - 1)) = true := intToValue_denotes' _
 
+/-- `intToValue i` IS the canonical value of the double nearest to `i`; hence the int paths of `+ - ++ --` return
+exactly what the float path would return on the correctly rounded exact result. -/
+theorem intToValue_eq_floatToValue (i : Int) : intToValue i = floatToValue (F64.ofInt i) := int_eq_floatToValue i
+theorem add_int_path_exact (x y : Int) (r : F64) : opAdd (int x) (int y) r = floatToValue (F64.ofInt (x + y)) :=
+  int_eq_floatToValue _
+theorem sub_int_path_exact (x y : Int) (r : F64) : opSub (int x) (int y) r = floatToValue (F64.ofInt (x - y)) :=
+  int_eq_floatToValue _
+
+/-- **`/` refines IEEE-754 division**: goja's explicit special cases (NaN operands, ∞/∞, 0/0, ∞/y, x/∞, x/0 with the
+XOR of the signs) give exactly the canonical value of the IEEE result (`specDivSpecial`), every other operand pair goes
+through `floatToValue r` — for ALL operands. -/
+theorem div_refines (a b : Num) (r : F64) :
+    opDiv a b r = floatToValue ((specDivSpecial (toNumeric a).toF64 (toNumeric b).toF64).getD r) := opDiv_refines' a b r
+
 /-- `_mul` after bd78985: a zero product of two ints with a negative factor is `-0`, for ALL such operands … -/
 theorem mul_int_zero_sign (r : F64) {x y : Int} (h : (x = 0 ∧ y < 0) ∨ (x < 0 ∧ y = 0)) :
     opMul (int x) (int y) r = flt F64.negZero := by
@@ -170,6 +184,20 @@ theorem mul_int_zero_sign (r : F64) {x y : Int} (h : (x = 0 ∧ y < 0) ∨ (x < 
 theorem mul_int_zero_pos (r : F64) {x y : Int} (hx : -maxInt ≤ x ∧ x ≤ maxInt) (hy : -maxInt ≤ y ∧ y ≤ maxInt)
     (h0 : x * y = 0) (h : ¬ ((x = 0 ∧ y < 0) ∨ (x < 0 ∧ y = 0))) :
     opMul (int x) (int y) r = int 0 := mul_int_zero_pos' r hx hy h0 h
+
+/-- **`_mul`'s overflow test is exact**: for canonical int operands the wrapped int64 product divided by `left` gives back
+`right` exactly when the true product fits an int64. -/
+theorem mul_overflow_test_exact {x y : Int} (hx : -maxInt ≤ x ∧ x ≤ maxInt) (hx0 : x ≠ 0) :
+    goQuot (wrapS 64 (x * y)) x = y ↔ InInt64 (x * y) := mul_overflow_test hx hx0
+
+/-- The int×int path of `*`, completely: `-0` for a zero product with a negative factor, the canonical value of the
+EXACT product when it fits an int64, `floatToValue r` (IEEE product) only when it does not; a wrapped product is never
+used. -/
+theorem mul_int_exact {x y : Int} (hx : -maxInt ≤ x ∧ x ≤ maxInt) (hy : -maxInt ≤ y ∧ y ≤ maxInt) (r : F64) :
+    opMul (int x) (int y) r =
+      if (x = 0 ∧ y < 0) ∨ (x < 0 ∧ y = 0) then flt F64.negZero
+      else if InInt64 (x * y) then intToValue (x * y)
+      else floatToValue r := opMul_int_exact hx hy r
 
 /-- Regression lemma (before bd78985 the guard was `0 * -1 | -1 * 0` only): `0 * -5` took the integer path. -/
 theorem mul_prefix_witness : mulNegZeroPrefix 0 (-5) = false ∧ mulNegZero 0 (-5) = true := by decide
@@ -203,6 +231,17 @@ theorem toUint8Clamp_spec {a : Num} (ha : Canon a) : toUint8Clamp a = specToUint
   toUint8Clamp_spec' ha
 theorem toLengthUint32_spec {a : Num} (ha : Canon a) : toLengthUint32 a = specArrayLength a.toF64 :=
   toLengthUint32_spec' ha
+
+/-- PARTIAL (code as it is): `Number(bigint)` is the spec's value only while the BigInt fits an int64; what is missing is
+every BigInt beyond ±2^63 (see the witness; patch fixes/C05-number-of-bigint.diff). -/
+theorem numberOfBigInt_partial {b : Int} (h : InInt64 b) : numberOfBigInt b = specNumberOfBigInt b := by
+  have hw : wrapS 64 b = b := by simp only [wrapS, InInt64, minInt64, maxInt64] at *; omega
+  simp only [numberOfBigInt, specNumberOfBigInt, hw]
+  exact floatToValue_unique' (canon_intToValue_canon b) (intToValue_denotes' b)
+
+/-- DEFECT witness: `Number(2n**64n)` is 0 (the low 64 bits), the spec says 18446744073709551616. -/
+theorem numberOfBigInt_witness :
+    numberOfBigInt (2 ^ 64) = int 0 ∧ specNumberOfBigInt (2 ^ 64) = flt (F64.mk' false 1087 0) := by decide
 
 /-! ## 5. String → number: grammar-level decisions of the fixed code (see `StrNum.lean`) -/
 
@@ -278,6 +317,15 @@ theorem parseInt_loop_no_wrap {base : Nat} (hb : 2 ≤ base) (hb36 : base ≤ 36
 theorem parseInt_large_is_big {base : Nat} (hb : 2 ≤ base) (hb36 : base ≤ 36) (ds : List Nat)
     (h : ParseInt.loop base 0 ds = .large) : ParseInt.cutoff base ≤ ParseInt.exact base 0 ds :=
   ParseInt.large_is_big hb hb36 ds 0 (by decide) (by decide) h
+
+/-- `parseInt`'s digit phase returns the exact integer value of the longest valid digit prefix (or NaN when there is
+none), whichever of its two paths (int64 accumulator / math/big) it takes — every base 2..36, every text. -/
+theorem parseInt_digits_exact {base : Nat} (hb : 2 ≤ base) (hb36 : base ≤ 36) (ds : List Nat) :
+    ParseInt.digitsResult base ds =
+      (match ds with
+       | [] => none
+       | c :: _ => if StrNum.digitVal c ≥ base then none else some (ParseInt.exact base 0 ds)) :=
+  ParseInt.digitsResult_exact hb hb36 ds
 
 /-- Regression lemma (seeded change m3: `n > cutoff` for `n >= cutoff`): the accumulator wraps —
 `parseInt("8000000000000000", 16)` would be -2^63; the real loop hands over. -/
